@@ -39,7 +39,7 @@ FUNCS = {'truthy': _truthy, 'pos': _pos, 'never': _never, 'always': _always, 'is
 CLASSES = {'int': int, 'str': str, 'bool': bool, 'float': float, 'K': U.K, 'K2': U.K2, 'Other': U.Other,
            'object': object, 'type': type, 'list': list}
 
-VALUES = {'1': 1, "'a'": 'a', '[1]': [1], 'True': True, '1.0': 1.0, 'None': None, '0': 0, '2': 2}
+VALUES = {'1': 1, "'a'": 'a', '[1]': [1], 'True': True, '1.0': 1.0, 'None': None, '0': 0, '2': 2, 'NEQ': U.NEQ, 'NAN': U.NAN}
 
 _MISSING = object()
 
